@@ -852,7 +852,7 @@ func mdFirstDiff(a, b []byte) int {
 func init() {
 	vfRegister(&vfProp{
 		ID: "C23", Level: "exploration", ReplayClass: "decision-exact",
-		Rule:        "case = codec in {Opus, VP8, VP9, H264, AV1}, either side offering, 0-2 extra tracks and an optional data channel in the bundle, 3-25 RTP packets with random payloads/markers/timestamp steps/start sequence (incl. wrap) written to a TrackLocalStaticRTP of a real connected pair; half of the runs on a fault-free constant-delay network (everything must arrive, in order), half with jitter, loss and duplication (received must be a subset, each intact); non-trivial = the pair connected, distinct = configuration + hash of the outcome",
+		Rule:        "case = codec in {Opus, VP8, VP9, H264, AV1}, either side offering, 0-2 extra tracks and an optional data channel in the bundle, 3-25 RTP packets with random payloads/markers/timestamp steps/start sequence (incl. wrap) written to a TrackLocalStaticRTP of a real connected pair; half of the runs on a fault-free constant-delay network (everything must arrive, in order), half with jitter, loss and duplication (received must be a subset, each intact); in half of the fault-free runs the sender then replaces its track (another stream id, or another track id too), the pair renegotiates with either side offering, more packets follow and the remote track's identity is read again; non-trivial = the pair connected, distinct = configuration + hash of the outcome",
 		Real:        []string{"both PeerConnections with real ICE, DTLS, SRTP, default interceptors (NACK/RTX, reports, TWCC), RTPSender/RTPReceiver/TrackRemote", "vnet"},
 		Stub:        []string{"network: vnet + seeded per-datagram fate", "signaling: in-process"},
 		Assumptions: []string{"header extensions added by interceptors are not compared; SSRC, payload type, sequence number, timestamp, marker and payload are"},
@@ -861,7 +861,7 @@ func init() {
 	})
 	vfRegister(&vfProp{
 		ID: "C26", Level: "exploration", ReplayClass: "decision-exact",
-		Rule:        "case = a connected pair with a video track and RTX negotiated; for ~60% of 3-25 packets the simulated sender suppresses the original and writes only its RFC 4588 retransmission (RTX SSRC and payload type, own sequence numbers, OSN prefix) through the sender's SRTP stream, with 0-15 CSRCs, one-byte/two-byte/other extension profiles of 0-7 words, 0-255 padding bytes, payload 0-1000 bytes, and RTX packets too short to hold an OSN; fault-free network; non-trivial = the pair connected, distinct = configuration + outcome hash",
+		Rule:        "case = a connected pair with a video track and RTX negotiated; for ~60% of 3-25 packets the simulated sender suppresses the original and writes only its RFC 4588 retransmission (RTX SSRC and payload type, own sequence numbers, OSN prefix) through the sender's SRTP stream, with 0-15 CSRCs, one-byte/two-byte/other extension profiles of 0-7 words, 0-255 padding bytes, payload 0-1000 bytes, and RTX packets too short to hold an OSN; in a third of the runs the primary stream switches to another negotiated payload type mid-stream (its retransmissions to that codec's RTX payload type); fault-free network; non-trivial = the pair connected, distinct = configuration + outcome hash",
 		Real:        []string{"both PeerConnections with real ICE, DTLS, SRTP, interceptors; RTPReceiver repair-stream reader and TrackRemote.Read unwrapping", "vnet"},
 		Stub:        []string{"the sender-side loss-and-retransmit element is the harness writing crafted RTX packets through the real RTPSender's SRTP write stream"},
 		Assumptions: []string{"order between packets of the primary stream and unwrapped retransmissions is not compared (two streams)", "the repair channel holds 50 packets; runs send at most 25"},
